@@ -106,10 +106,12 @@ def run(L, rep, tier, seed):
         data += smuggled
         cv = Conv(S, ctx, data, end='eof')
         pred = {}
+        delivered = []
         sc = lambda m: dict({'kind': 'conversation', 'class': cls, 'position': pos, 'text': model_bytes(m, data).decode('latin1'),
-                             'mode': 'hold_first' if pos >= 1 else 'respond_all'}, **({'predicted': dict(pred)} if pred else {}))
+                             'mode': 'hold_first' if pos >= 1 else 'respond_all'}, **({'predicted': dict(pred, urls=[model_slice(m, r['url']).decode('latin1') for r in delivered])} if pred else {}))
         reqs = drive(cv, hold=lambda i, rq: (pos >= 1 and i == 0))
         urls = [r['url'].concrete() for r in reqs]
+        delivered += reqs
         ctx.event('witness', cls)
         pred['urls'] = [u.decode('latin1') if u is not None else None for u in urls]
         if cv.blocked is None:
